@@ -1428,3 +1428,14 @@ package ice
 //@   ensures[C05] @exhausted_when_nothing_found i.includeFreqNorm && err == nil && !exists ==> least(itset(i.Actual), itcur(i.Actual)) == -1
 //@ func (*PostingsIterator).nextDocNumAtOrAfter
 //@   ensures[C05] @exhausted_when_nothing_found_clean old(i.normBits1Hit) == 0 && old(i.postings != nil && i.postings.postings == i.ActualBM) && i.includeFreqNorm && err == nil && !exists ==> i.Actual == nil || least(itset(i.Actual), itcur(i.Actual)) == -1
+//@
+//@ // ---- C09/C15/C13: readers work on private clones of the segment's doc-value readers ----
+//@ func (*docValueReader).cloneInto
+//@   ensures[C09,C13,C15] @clone_is_not_the_original rv != di ==> result0 != di
+//@   ensures[C09,C13,C15] rv == nil ==> fresh(result0)
+//@ func (*Segment).visitDocumentFieldTerms
+//@   at call:(*docValueReader).cloneInto#0 lemma[C09,C13,C15] result0 != nil
+//@
+//@ // ---- C02: every re-encoded location carries the merged id of its own field ----
+//@ func mergeTermFreqNormLocs
+//@   at call:(github.com/blugelabs/bluge_segment_api.Location).End#1 lemma[C02] args[0] == fieldsMap[ite(isLoc(loc), cast(loc, "*Location").field, locField(loc))] - 1
